@@ -225,6 +225,39 @@ def gen_cross_run(rng) -> dict:
     return {"method": method, "ops": ops}
 
 
+def gen_restart_paused(rng) -> dict:
+    """Template: a pause that stores values (user Pause, untimed method Pause, error) is still in effect when the
+    run is ended by Restart (or Stop + Start); in the new run the outputs are changed and then an Unpause body runs
+    with no pause in effect (the method's `Unpause` instruction - the method starts over in the new run) or an
+    error pause + Unpause follows: nothing captured in the earlier run may be applied."""
+    val = [60]
+
+    def sets(lo, hi):
+        out = []
+        for _ in range(rng.randrange(lo, hi + 1)):
+            val[0] += 1
+            out.append(["set", rng.randrange(0, 3), val[0]])
+        return out
+    method = rng.choice(["Wait: 0.25s\nUnpause\nMark: c", "Mark: a\nUnpause", "Wait: 1.5s\nUnpause\nWait: 1s\nUnpause",
+                         "Wait: 0.5s\nUnpause\nMark: b\nWait: 1s\nUnpause", "Mark: a"])
+    ops = [["user", "Start"], list(T), list(T)] + sets(1, 3)
+    ops += rng.choice([[["user", "Pause"], list(T)], [["user", "Pause"], list(T), list(T)],
+                       [["errapi"], list(T)], [["user", "Pause"], list(T), ["errapi"]],
+                       [["user", "Pause"], ["user", "Pause"], list(T)]])
+    ops += sets(0, 2)
+    ops += rng.choice([[["user", "Restart"], list(T), list(T), list(T)],
+                       [["user", "Restart"], list(T), list(T), list(T)],
+                       [["user", "Stop"], list(T), list(T), ["user", "Start"], list(T)]])
+    ops += sets(1, 3)
+    for _ in range(rng.randrange(3, 7)):             # the method of the new run reaches its Unpause
+        ops.append(rng.choice([list(T), ["tick", 4, 4, 0], ["tick", 2, 2, 0]]))
+        if rng.random() < 0.3:
+            ops += sets(1, 1)
+    if rng.random() < 0.4:
+        ops += [["errapi"], ["user", "Unpause"], list(T)]
+    return {"method": method, "ops": ops}
+
+
 def gen_early_unpause(rng) -> dict:
     """Templates around an Unpause that finds nothing to restore: a timed method Pause ended early by the user
     (its timer later calls Unpause again), an `Unpause` instruction after an earlier pause cycle, errors while
@@ -317,6 +350,7 @@ def gen_cases(ctx: Check) -> dict[str, list[dict]]:
     streams["exhaustive"] = ex
     streams["early-unpause"] = [gen_early_unpause(rng) for _ in range(ctx.n(120, 2500))]
     streams["cross-run"] = [gen_cross_run(rng) for _ in range(ctx.n(150, 3000))]
+    streams["restart-while-paused"] = [gen_restart_paused(rng) for _ in range(ctx.n(80, 1500))]
     streams["histories"] = [gen_history(rng, rng.randrange(6, ctx.n(13, 31))) for _ in range(ctx.n(300, 10000))]
     streams["sessions"] = [R.gen_session(rng, rng.randrange(6, 31), malformed=(i % 3 == 0), errors=True)
                            for i in range(ctx.n(120, 3000))]
@@ -339,7 +373,10 @@ def run(ctx: Check) -> int:
                 "instruction after an earlier pause cycle, errors while paused, second cycle) with output changes at "
                 "every stage; cross-run: templated two-run histories (first run ends "
                 "by Stop/Restart with or without a pause in effect, second run has an error pause / a method Unpause "
-                "/ a normal pause) with random fillers; histories: adaptive sequences of runs / pauses "
+                "/ a normal pause) with random fillers; restart-while-paused: a storing pause (user Pause, double "
+                "Pause, error) still in effect when the run is ended by Restart or Stop+Start, then output changes "
+                "in the new run and the restarted method's `Unpause` instruction / an error pause + Unpause; "
+                "histories: adaptive sequences of runs / pauses "
                 "(user and method, timed and not) / unpauses / stops / restarts / error pauses with output changes "
                 "between and during pauses, length <=12/30; sessions: the general M1 generator incl. malformed "
                 "input. Non-trivial = an Unpause applied stored values (prev became none while outputs changed) "
